@@ -252,12 +252,82 @@ pub fn run(ctx: &Ctx) -> Result<(), String> {
         }
     }
 
+    // 4. histories on ONE blob in one process: every sequence of decrypt operations (healthy
+    //    provider, each provider fault, another provider instance, a tampered copy of the blob) up to
+    //    the depth bound. A fault must be refused also AFTER the same blob was decrypted
+    //    successfully, and a healthy decrypt must succeed also after refused ones.
+    let ops: Vec<(&str, Option<Fault>)> = vec![
+        ("good", None),
+        ("decrypt-err", Some(Fault::DecryptErr)),
+        ("wrong-key", Some(Fault::WrongKey)),
+        ("key-len-16", Some(Fault::KeyLen(16))),
+        ("key-len-33", Some(Fault::KeyLen(33))),
+        ("other-provider", None),
+        ("tampered-blob", None),
+    ];
+    let depth = ctx.tier.pick(3u32, 4);
+    let mut seqs: Vec<Vec<usize>> = vec![];
+    for l in 2..=depth {
+        for mut idx in 0..ops.len().pow(l) {
+            let mut v = vec![];
+            for _ in 0..l {
+                v.push(idx % ops.len());
+                idx /= ops.len();
+            }
+            seqs.push(v);
+        }
+    }
+    let hist_n = seqs.len() * 2;
+    par_for(seqs.len() * 2, 8, |k, _| {
+        let w = [64usize, 24][k % 2];
+        let seq = &seqs[k / 2];
+        evals.fetch_add(1, Relaxed);
+        faults_n.fetch_add(1, Relaxed);
+        let mut prov = Prov::new(w, Fault::None);
+        let seed: Vec<u8> = (0..32).map(|i| (i * 7 + k + 3) as u8).collect();
+        let blob = match catch(|| EnvelopeEncryption::encrypt_seed(&prov, &seed)) {
+            Ok(Ok(b)) => b,
+            _ => return,
+        };
+        let names: Vec<&str> = seq.iter().map(|&o| ops[o].0).collect();
+        for (step, &o) in seq.iter().enumerate() {
+            let (name, fault) = ops[o];
+            prov.fault = fault.unwrap_or(Fault::None);
+            let r = match name {
+                "other-provider" => {
+                    let mut other = Prov::new(w, Fault::None);
+                    other.key = [0x7c; 32];
+                    catch(|| EnvelopeEncryption::decrypt_seed(&other, &blob))
+                }
+                "tampered-blob" => {
+                    let mut b = blob.clone();
+                    let n = b.len();
+                    b[n - 20] ^= 0x04; // inside ciphertext/tag
+                    catch(|| EnvelopeEncryption::decrypt_seed(&prov, &b))
+                }
+                _ => catch(|| EnvelopeEncryption::decrypt_seed(&prov, &blob)),
+            };
+            let after_good = seq[..step].iter().any(|&x| ops[x].0 == "good");
+            let class = format!("{}{}", name, if after_good { "-after-successful-decrypt" } else { "" });
+            let detail = |m: String| json!({"kind":"history","wrapped_len":w,"operations":names,"step":step,"message":m});
+            match (name, r) {
+                (_, Err(pn)) => ctx.violation("panic", "decrypt_seed", &class, detail(pn)),
+                ("good", Ok(Ok(s))) if s == seed => {}
+                ("good", Ok(Ok(s))) => ctx.violation("roundtrip-differs", "decrypt_seed", &class, detail(format!("got {}", hex(&s)))),
+                ("good", Ok(Err(e))) => ctx.violation("roundtrip-error", "decrypt_seed", &class, detail(format!("{:?}", e))),
+                (_, Ok(Err(_))) => {}
+                (_, Ok(Ok(s))) => ctx.violation("provider-fault-accepted", "decrypt_seed", &class, detail(format!("returned Ok({})", hex(&s)))),
+            }
+        }
+    });
+
     ctx.cov("evaluations", json!(evals.load(Relaxed)));
     ctx.cov("distinct_nontrivial", json!(faults_n.load(Relaxed)));
+    ctx.cov("decrypt_histories", json!({"count": hist_n, "depth": depth, "operations": ops.iter().map(|o| o.0).collect::<Vec<_>>()}));
     ctx.cov("roundtrips", json!(rt.len()));
     ctx.cov("fault_bases", json!(fc.len()));
     ctx.cov("exhaustive", json!(true));
-    ctx.cov("rule", json!("round trip + leak scan (raw/hex/HEX/base64/base64url of seed and of the DEK the provider saw) for every wrapped-key length in the tier's set (thorough: every 16..=1024) x every plaintext length 32..=64; on each fault base (wrapped length x plaintext length): every single-bit flip at every blob position, every byte set to 00/ff, every truncation length, extension by 1..=16 bytes, swapped length fields; provider faults: error on encrypt, error on decrypt, different key, key of length 0/16/31/33/64. Non-trivial = one injected fault (distinct by construction). Oracle: pristine => Ok(seed); any fault => Err, never Ok(_) and never a panic."));
+    ctx.cov("rule", json!("round trip + leak scan (raw/hex/HEX/base64/base64url of seed and of the DEK the provider saw) for every wrapped-key length in the tier's set (thorough: every 16..=1024) x every plaintext length 32..=64; on each fault base (wrapped length x plaintext length): every single-bit flip at every blob position, every byte set to 00/ff, every truncation length, extension by 1..=16 bytes, swapped length fields; provider faults: error on encrypt, error on decrypt, different key, key of length 0/16/31/33/64; every sequence (length 2..=depth) of decrypt operations on ONE blob in one process over {healthy, decrypt error, wrong key, key length 16/33, another provider instance, tampered copy}, each step judged (healthy => Ok(seed), anything else => Err) whatever came before. Non-trivial = one injected fault (distinct by construction). Oracle: pristine => Ok(seed); any fault => Err, never Ok(_) and never a panic."));
     ctx.cov("bound", json!({"wrapped_lengths": wlens.len(), "plaintext_lengths": plens.len(), "fault_bases": fc.len()}));
     ctx.sample(json!({"kind":"fault","fault":"bit-flip","pos":17,"wrapped_len":48,"plaintext_len":32}));
     ctx.sample(json!({"kind":"provider","fault":"KeyLen(31)","wrapped_len":64}));
@@ -277,6 +347,45 @@ pub fn replay_case(c: &Value) -> Result<Option<String>, String> {
                 Ok(Ok(s)) if s == seed => Ok(None),
                 other => Ok(Some(format!("{:?}", other))),
             }
+        }
+        Some("history") => {
+            let names: Vec<String> = c["operations"].as_array().ok_or("operations")?.iter().map(|x| x.as_str().unwrap_or("").to_string()).collect();
+            let mut prov = Prov::new(w, Fault::None);
+            let seed: Vec<u8> = (0..32).map(|i| (i * 7 + 3) as u8).collect();
+            let blob = catch(|| EnvelopeEncryption::encrypt_seed(&prov, &seed)).map_err(|e| e)?.map_err(|e| format!("{:?}", e))?;
+            for (step, name) in names.iter().enumerate() {
+                prov.fault = match name.as_str() {
+                    "decrypt-err" => Fault::DecryptErr,
+                    "wrong-key" => Fault::WrongKey,
+                    "key-len-16" => Fault::KeyLen(16),
+                    "key-len-33" => Fault::KeyLen(33),
+                    _ => Fault::None,
+                };
+                let r = match name.as_str() {
+                    "other-provider" => {
+                        let mut other = Prov::new(w, Fault::None);
+                        other.key = [0x7c; 32];
+                        catch(|| EnvelopeEncryption::decrypt_seed(&other, &blob))
+                    }
+                    "tampered-blob" => {
+                        let mut b = blob.clone();
+                        let n = b.len();
+                        b[n - 20] ^= 0x04;
+                        catch(|| EnvelopeEncryption::decrypt_seed(&prov, &b))
+                    }
+                    _ => catch(|| EnvelopeEncryption::decrypt_seed(&prov, &blob)),
+                };
+                let ok = match (name.as_str(), &r) {
+                    ("good", Ok(Ok(s))) => *s == seed,
+                    ("good", _) => false,
+                    (_, Ok(Err(_))) => true,
+                    _ => false,
+                };
+                if !ok {
+                    return Ok(Some(format!("step {} ({}): {:?}", step, name, r.map(|x| x.map(|s| hex(&s))))));
+                }
+            }
+            Ok(None)
         }
         _ => Err("replay of this case kind: re-run the check (blobs contain fresh random nonces)".into()),
     }
